@@ -184,3 +184,18 @@ prop("C15",
           "are served by no server; the cache-loaded SegmentTimelines over two loops are contiguous. Non-trivial = a case with a damaged "
           "cache file or an inadmissible asset; distinct by hash of the case.",
      quick=dict(shards=4, timeout=400), thorough=dict(shards=16, timeout=1500), assumptions=COMMON)
+
+prop("C08",
+     rule="rapid draws requests against a panic-transparent copy of the livesim2 router (every route found by chi.Walk mounted without middlewares; "
+          "/debug, /metrics and the external /player proxy excluded): /livesim2 URLs with 1-2 hostile (key,value) pairs out of all URL keys x "
+          "{empty, 0, -1, huge, 30 digits, non-numeric, float/int confusion, NaN, inf, 1e300, hex, spaces, percent escapes, non-ASCII digits} "
+          "plus list-valued keys (utc, timesubs*, statuscode, traffic, drm, eccp, annexI), shuffled with benign parts, all asset / file / "
+          "segment-number shapes, hostile nowMS/nowDate/publishTime, all methods; requests whose only peculiarity is an unknown asset, "
+          "representation, number below startNumber, $Time$ that is no segment start, language or extension; /urlgen/*, POST licence bodies, "
+          "/patch with hostile publishTime, /api create/info/step/delete with hostile JSON and ids, /vod, static and misc routes. Oracle: no "
+          "panic (value and first livesim2 frame reported), returns within 10 s (re-run alone before it is called a hang), deliberate status, "
+          "4xx with a message for malformed / documented out-of-range values, 404 for unknown assets and segments. Non-trivial = a request "
+          "that got past URL parsing (status != 400); distinct by method+URL+body.",
+     quick=dict(shards=2, timeout=400), thorough=dict(shards=16, timeout=1500), crash_is_violation=True,
+     assumptions=COMMON + ["traffic patterns are requested at instants in up/down states only (slow/hang sleep by design)",
+                           "upload bodies with declared box sizes above 16 MiB are not generated (allocation from a 4-byte field, see DESIGN)"])
